@@ -168,9 +168,10 @@ def normalize_array_shape_and_access(routine):
             for i, d in enumerate(v.shape):
                 if is_explicit_range_index(d):
                     if isinstance(v.dimensions[i], sym.RangeIndex):
-                        start = simplify(v.dimensions[i].start - d.start + 1) if d.start is not None else None
-                        stop = simplify(v.dimensions[i].stop - d.start + 1) if d.stop is not None else None
-                        new_dims += [sym.RangeIndex((start, stop, d.step))]
+                        dim = v.dimensions[i]
+                        start = simplify(dim.start - d.start + 1) if dim.start is not None else None
+                        stop = simplify(dim.stop - d.start + 1) if dim.stop is not None else None
+                        new_dims += [sym.RangeIndex((start, stop, dim.step))]
                     else:
                         start = simplify(v.dimensions[i] - d.start + 1) if d.start is not None else None
                         new_dims += [start]
